@@ -261,6 +261,11 @@ func (p *ReverseProxy) ServeHTTP(rw http.ResponseWriter, req *http.Request) {
 	}
 
 	outreq := req.Clone(ctx)
+	// Clone copies the Trailer map while it only holds the announced keys: the
+	// values arrive when the body has been read to its end. Share the map, so
+	// that the transport (which reads the body, then writes the trailer) sends
+	// what the client sent instead of empty fields.
+	outreq.Trailer = req.Trailer
 	if req.ContentLength == 0 {
 		outreq.Body = nil // Issue 16036: nil Body for http.Transport retries
 	}
